@@ -129,6 +129,11 @@ def build_seed(k):
         if kind.endswith('-data'):
             continue
         ranges.append((kind, s, min(e, len(data))))
+    # the both-byte-order numbers of every volume descriptor (space size, set size, sequence number,
+    # block size, path table size) as a structure of its own
+    for vol_ in dec['ecma'].volumes:
+        base_ = vol_.vd.sector * 2048
+        ranges.append(('vd-numbers', base_ + 80, base_ + 140))
     rr_ = dec.get('susp')
     if rr_ is not None and getattr(rr_, 'present', False):
         # System Use entries: the 4-byte header (signature, length, version) of a few entries of
@@ -329,9 +334,15 @@ def sweep_list(k):
         out = []
         seen = set()
         for kind, s_, e_ in ranges:
-            if e_ - s_ > 128 or (kind, s_) in seen:
+            if (e_ - s_ > 128 and kind != 'vd-numbers') or (kind, s_) in seen:
                 continue
             seen.add((kind, s_))
+            if kind == 'vd-numbers':
+                # both copies of a number changed consistently (the parser checks that they agree)
+                for rel, w in ((0, 'both32'), (40, 'both16'), (44, 'both16'), (48, 'both16'), (52, 'both32')):
+                    for v in (0, 1, 0xffff if w == 'both16' else 0xffffffff, 0x8000 if w == 'both16' else 0x80000000):
+                        out.append((kind, s_ + rel, w, v))
+                continue
             if kind.startswith('susp-'):
                 # the length byte of a System Use entry a little shorter / longer than it is
                 cur = data[s_ + 2]
@@ -359,7 +370,12 @@ def run_fault(k, cs, counters, sweep=None):
     elif sweep is not None:
         kind, off, width, val = sweep
         b = bytearray(data)
-        b[off:off + width] = val.to_bytes(width, 'little')
+        if width == 'both32':
+            b[off:off + 8] = struct.pack('<L', val) + struct.pack('>L', val)
+        elif width == 'both16':
+            b[off:off + 4] = struct.pack('<H', val) + struct.pack('>H', val)
+        else:
+            b[off:off + width] = val.to_bytes(width, 'little')
         mutated, desc = bytes(b), {'fault': 'sweep', 'structure': kind, 'offset': off, 'width': width, 'value': '%#x' % val}
     else:
         mutated, desc = make_fault(rng, data, ranges)
